@@ -355,6 +355,10 @@ def c20_jobs(tier):
     return js
 
 
+def c19_jobs(tier):
+    return [job("ZZ_C19_Step", C, k=1 if tier == "quick" else 2)]
+
+
 def c18_jobs(tier):
     return [job("ZZ_C18_Styling", C, cmd=c) for c in range(6)]
 
@@ -506,6 +510,14 @@ CHECKS = {
         "outside": "well-formedness and escaping of the emitted JSON TEXT for arbitrary bytes (encoding/json is reflection-driven and is stubbed as an opaque codec in the engine; the natively replayed witnesses decode the real text with encoding/json, which samples but does not decide well-formedness); --pretty layout; filters and --sort in klog json (C13)",
         "stubs": [MODELS["json"], MODELS["regexp"], MODELS["fmt"], MODELS["sort"]],
         "assumptions": COMMON_ASSUME + ["reduced scope: the value tree, not the text (DESIGN section 6)"],
+    },
+    "C19": {
+        "jobs": c19_jobs,
+        "bounds": {"quick": "one inductive step (set / unset / clear, then read back, list order, @name resolution) from a stored database of 0-1 bookmarks; names = optional @ / @@ prefix + 0-2 symbolic printable bytes; three concrete target paths (incl. a space and a sub-directory); the REAL app.Context (ManipulateBookmarks, ReadBookmarks, RetrieveTargetFile, FileRetriever, WriteToFile/ReadFile) on the virtual file system",
+                   "thorough": "stored database of 0-2 bookmarks"},
+        "outside": "the JSON text of bookmarks.json (encoding/json is an opaque faithful codec in the engine: Unmarshal(Encode(v)) = v); non-ASCII names; --create; file-system failures; histories longer than one step are covered inductively only (every command re-reads the file)",
+        "stubs": [MODELS["json"] + "; json.Unmarshal returns a deep copy of the encoded value", VFS_STUB, MODELS["sort"], MODELS["fmt"]],
+        "assumptions": COMMON_ASSUME + ["pre-states are produced by the real `bookmarks set` command, so they satisfy the representation invariant by construction"],
     },
     "C18": {
         "jobs": c18_jobs,
